@@ -413,6 +413,7 @@ func writeEvidence(c *Check, o Options, parts []*BatchStats, agg *BatchStats, vi
 		"components_stub":       c.Stub,
 		"replay_exact":          replayExact,
 		"reach_missing":         missing,
+		"harness_retries":       HarnessRetries.Load(),
 	}
 	if c.Extra != nil {
 		for k, v := range c.Extra() {
